@@ -1096,8 +1096,8 @@ static int parse_container(struct scanner_s *scanner, cif_container_tp *containe
                             if (result != CIF_OK) {
                                 goto container_end;
                             }
-                            /* recover by using the existing frame */
-                            result = cif_container_get_frame(container, token_value, &frame);
+                            /* recover by using the existing frame (whose code may be one accepted despite being invalid) */
+                            result = cif_container_get_frame_internal(container, token_value, 1, &frame);
                             break;
                         /* default: do nothing */
                     }
